@@ -58,6 +58,16 @@ PR(from_string_bad_alg) { return crypto_core_ed25519_from_string(b, "ctx", k, 4,
 PR(ristretto_from_string_bad_alg) { return crypto_core_ristretto255_from_string(b, "ctx", k, 4, 0); }
 PR(sign_open_short) { unsigned long long n; return crypto_sign_open(b, &n, k, 63, k); }
 PR(kx_client_both_null) { return crypto_kx_client_session_keys(NULL, NULL, k, k, k + 32); }
+/* the /dev/urandom fallback of the default random source (taken when getrandom(2) is unavailable), with reads cut short by
+ * signals: a seccomp filter answers ENOSYS to getrandom, an interval timer interrupts the long read; 48 MiB + 123 bytes are
+ * requested into a buffer that ends at a PROT_NONE page. "unavail" when the filter cannot be installed here. */
+#include <linux/filter.h>
+#include <linux/seccomp.h>
+#include <stddef.h>
+#include <sys/prctl.h>
+#include <sys/syscall.h>
+#include <sys/time.h>
+static void pr_sigalrm(int s) { (void) s; }
 static const struct { const char *name; probefn f; } probes[] = {
 #define P(n) { #n, pr_##n }
     P(aead_chacha20poly1305_encrypt_max1), P(aead_chacha20poly1305_ietf_encrypt_max1), P(aead_xchacha20poly1305_ietf_encrypt_max1),
@@ -101,5 +111,33 @@ static int run_probes(void) {
         int st; waitpid(pid, &st, 0);
         if (WIFSIGNALED(st)) { probe_name = probes[i].name; probe_emit("killed"); }
     }
+    return 0;
+}
+static int sysrandom_probe(int fallback) {      /* fresh process, BEFORE sodium_init(): the state of the default source is initialised only once */
+    struct sock_filter flt[] = {
+        BPF_STMT(BPF_LD | BPF_W | BPF_ABS, (unsigned) offsetof(struct seccomp_data, nr)),
+        BPF_JUMP(BPF_JMP | BPF_JEQ | BPF_K, __NR_getrandom, 0, 1),
+        BPF_STMT(BPF_RET | BPF_K, SECCOMP_RET_ERRNO | (ENOSYS & SECCOMP_RET_DATA)),
+        BPF_STMT(BPF_RET | BPF_K, SECCOMP_RET_ALLOW) };
+    struct sock_fprog prog = { (unsigned short) (sizeof flt / sizeof flt[0]), flt };
+    probe_name = fallback ? "sysrandom_fallback_short_reads" : "sysrandom_getrandom_chunks";
+    if (fallback && (prctl(PR_SET_NO_NEW_PRIVS, 1, 0, 0, 0) != 0 || prctl(PR_SET_SECCOMP, SECCOMP_MODE_FILTER, &prog) != 0)) { probe_emit("unavail"); return 0; }
+    signal(SIGSEGV, probe_signal); signal(SIGBUS, probe_signal); signal(SIGABRT, probe_signal);
+#ifdef V_ASAN
+    __sanitizer_set_death_callback(probe_san);
+#endif
+    if (sodium_init() < 0) { probe_emit("reterr"); return 0; }
+    sodium_set_misuse_handler(probe_misuse);
+    if (strcmp(randombytes_implementation_name(), "sysrandom")) { probe_emit("unavail"); return 0; }
+    /* the writes are made by the kernel (read(2)), which stops at an inaccessible page without a fault: a canary region of 1 MiB
+     * behind the buffer is what shows a write beyond it */
+    size_t n = fallback ? ((size_t) 48 << 20) + 123 : ((size_t) 1 << 20) + 77, can = (size_t) 1 << 20; vguard g = v_galloc(n + can, 1); memset(g.p + n, 0xC3, can);
+    struct sigaction sa; memset(&sa, 0, sizeof sa); sa.sa_handler = pr_sigalrm; sigaction(SIGALRM, &sa, NULL);      /* no SA_RESTART */
+    struct itimerval it = { { 0, 700 }, { 0, 700 } }; setitimer(ITIMER_REAL, &it, NULL);
+    randombytes_buf(g.p, n);
+    struct itimerval off = { { 0, 0 }, { 0, 0 } }; setitimer(ITIMER_REAL, &off, NULL);
+    unsigned char acc = 0; for (size_t i = n - 4096; i < n; i++) acc |= g.p[i];
+    for (size_t i = 0; i < can; i++) if (g.p[n + i] != 0xC3) { probe_emit("signal"); return 0; }        /* written beyond the buffer */
+    probe_emit(acc == 0 ? "reterr" : "ret0");                                                                 /* the tail was filled */
     return 0;
 }
